@@ -1,6 +1,6 @@
 """C27 — structure factors respect crystal symmetry: deductive tier for the reciprocal grid the reflections are drawn from."""
 
-from pyvc.contracts import Int, Opq, Real, Tup
+from pyvc.contracts import Alt, Const, Int, Opq, Real, RowArr, Tup
 from pyvc.runner import native_replay as _nr
 from pyvc.runner import run_property
 
@@ -49,6 +49,22 @@ SPECS = {
         native_build={"cell": lambda v: __import__("numpy").array(v, dtype=float)},
         native_gen=lambda rng: dict(cell=_random_cell(rng), g_max=rng.choice([0.7, 1.0, 1.3, 1.8, 2.5, 3.0, 3.7, 4.7, rng.uniform(0.5, 5.0)])),
         native_helpers={"ufr": lambda name, cell, i: _native_bounds(cell, i)},
+    ),
+    # reflection conditions of the International Tables for the lattice centerings, at an arbitrary reflection (h, k, l)
+    "get_reflection_condition": dict(
+        module=MB, qualname="get_reflection_condition",
+        params=dict(hkl=RowArr(Int, Int, Int), centering=Alt(*[Const(c) for c in "PIFABCpifabc"])),
+        options=dict(pointwise=True), requires=[],
+        ensures=[
+            ("P-allows-everything", "centering.lower() != 'p' or result == True"),
+            ("I-h+k+l-even", "centering.lower() != 'i' or result == ((hkl[..., 0] + hkl[..., 1] + hkl[..., 2]) % 2 == 0)"),
+            ("F-unmixed-parity", "centering.lower() != 'f' or result == (hkl[..., 0] % 2 == hkl[..., 1] % 2 and hkl[..., 1] % 2 == hkl[..., 2] % 2)"),
+            ("A-k+l-even", "centering.lower() != 'a' or result == ((hkl[..., 1] + hkl[..., 2]) % 2 == 0)"),
+            ("B-h+l-even", "centering.lower() != 'b' or result == ((hkl[..., 0] + hkl[..., 2]) % 2 == 0)"),
+            ("C-h+k-even", "centering.lower() != 'c' or result == ((hkl[..., 0] + hkl[..., 1]) % 2 == 0)"),
+        ],
+        cross_check=True,
+        native_gen=lambda rng: dict(hkl=[rng.randint(-6, 6), rng.randint(-6, 6), rng.randint(-6, 6)], centering=rng.choice("PIFABCpifabc")),
     ),
 }
 
